@@ -25,6 +25,7 @@
 #include <gmssl/x509_ext.h>
 #include <gmssl/x509_crl.h>
 #include <gmssl/x509_req.h>
+#include <gmssl/tls.h>
 #include <gmssl/error.h>
 
 static uint8_t *g_root, *g_subca;
@@ -89,6 +90,8 @@ static void one_cert(const uint8_t *obj, size_t n)
 	x509_cert_to_pem(a, alen, fz_null());
 }
 
+static int g_selhi;
+
 static void cert_list(const uint8_t *obj, size_t n, int par)
 {
 	size_t cnt = 0;
@@ -108,6 +111,28 @@ static void cert_list(const uint8_t *obj, size_t n, int par)
 		x509_certs_verify_tlcp(obj, n, (par >> 3) & 1, g_root, g_rootlen, par & 7, &res);
 	}
 	x509_certs_to_pem(obj, n, fz_null());
+	{	/* certificate_authorities of a CertificateRequest from a CA list: learn the size with a large buffer, then offer
+		 * exactly that capacity and a capacity 1..8 bytes short of it (heap blocks of exactly maxlen bytes) */
+		size_t need = 0, nameslen = 0, maxlen;
+		uint8_t *big = fz_out(3 * n + 64), *names;
+		int k;
+		if (tls_authorities_from_certs(big, &need, 3 * n + 64, obj, n) == 1) {
+			FZ_ACCEPT();
+			if (need > 3 * n + 64) fz_fail("tls/authorities", "tls_authorities_from_certs wrote %zu bytes, maxlen = %zu", need, 3 * n + 64);
+			tls_authorities_issued_certificate(big, need, g_root, g_rootlen);
+			for (k = 0; k < 2; k++) {
+				size_t cut = k ? 1 + (size_t)(par & 7) : 0;
+				maxlen = need >= cut ? need - cut : 0;
+				names = fz_out(maxlen);
+				nameslen = 0;
+				if (tls_authorities_from_certs(names, &nameslen, maxlen, obj, n) == 1 && nameslen > maxlen)
+					fz_fail("tls/authorities", "tls_authorities_from_certs wrote %zu bytes, maxlen = %zu", nameslen, maxlen);
+				free(names);
+			}
+		}
+		free(big);
+		(void)g_selhi;
+	}
 }
 
 static void one_crl(const uint8_t *obj, size_t n, int par)
@@ -263,6 +288,7 @@ int LLVMFuzzerTestOneInput(const uint8_t *data, size_t size)
 	fz_begin();
 	sel = fz_u8(&in);
 	par = fz_u8(&in);
+	g_selhi = (sel >> 3) & 0x1f;
 	n = in.n;
 	if (fz_skip_x509_shapes(in.p, n, (sel & 7) == 6 || ((sel & 7) == 4 && (par % N_PRINTERS == 48 || par % N_PRINTERS == 49)))) {
 		FZ_EXCLUDED();
